@@ -456,3 +456,158 @@ func TestTimerStopReset(t *testing.T) {
 		t.Fatalf("got %v", r)
 	}
 }
+
+// outcomes runs body under many seeds and strategies and returns how often each
+// outcome string was seen ("stuck" for a run that ended with tasks blocked).
+func outcomes(t *testing.T, n int, body func(s *simrt.Sim, result *string)) map[string]int {
+	t.Helper()
+	seen := map[string]int{}
+	for _, strat := range []simrt.Strategy{simrt.StratRandom, simrt.StratSticky, simrt.StratPCT, simrt.StratPOS} {
+		for seed := uint64(1); seed <= uint64(n); seed++ {
+			s := simrt.New(simrt.Config{Seed: seed, Strategy: strat, StickyQ: 0.7, PCTDepth: 3, PCTSteps: 20, StopOnPanic: false})
+			var res string
+			body(s, &res)
+			out := s.Run()
+			switch {
+			case len(out.Panics) > 0:
+				seen["panic:"+out.Panics[0].Msg]++
+			case out.Stuck:
+				seen["stuck"]++
+			default:
+				seen[res]++
+			}
+		}
+	}
+	return seen
+}
+
+func wantOutcomes(t *testing.T, name string, got map[string]int, want ...string) {
+	t.Helper()
+	w := map[string]bool{}
+	for _, x := range want {
+		w[x] = true
+		if got[x] == 0 {
+			t.Errorf("%s: outcome %q is possible in Go but was never produced (got %v)", name, x, got)
+		}
+	}
+	for x := range got {
+		if !w[x] {
+			t.Errorf("%s: outcome %q was produced but is impossible in Go (got %v)", name, x, got)
+		}
+	}
+}
+
+// Litmus programs: small concurrent programs whose sets of possible outcomes under
+// the Go runtime are known; the simulator must produce exactly those sets.
+func TestLitmus(t *testing.T) {
+	// mutex barging: after Unlock the same goroutine may take the lock again before a
+	// goroutine that was already waiting
+	wantOutcomes(t, "barging", outcomes(t, 300, func(s *simrt.Sim, res *string) {
+		var mu ssync.Mutex
+		order := ""
+		s.Go(func() {
+			mu.Lock()
+			simrt.Yield()
+			mu.Unlock()
+			mu.Lock()
+			order += "A"
+			mu.Unlock()
+			*res = order
+		})
+		s.Go(func() {
+			mu.Lock()
+			order += "B"
+			mu.Unlock()
+			*res = order
+		})
+	}), "AB", "BA") // "AB" is the barging order: A relocked although B was waiting
+	// WaitGroup: Wait returns only after both Done calls
+	wantOutcomes(t, "waitgroup", outcomes(t, 200, func(s *simrt.Sim, res *string) {
+		var wg ssync.WaitGroup
+		n := 0
+		s.Go(func() {
+			wg.Add(2) // inside the simulation: the model only knows what it has seen
+			for i := 0; i < 2; i++ {
+				simrt.Go(func() { simrt.Yield(); n++; wg.Done() })
+			}
+			wg.Wait()
+			*res = fmt.Sprint(n)
+		})
+	}), "2")
+	// select with a ready send and a ready receive: either, never both
+	wantOutcomes(t, "select-two-ready", outcomes(t, 200, func(s *simrt.Sim, res *string) {
+		in := make(chan int, 1)
+		out := make(chan int, 1)
+		in <- 7
+		s.Go(func() {
+			sel := simrt.NewSelect(2, false)
+			c0 := simrt.SelRecv(sel, 0, in)
+			simrt.SelSend(sel, 1, out, 9)
+			switch sel.Wait() {
+			case 0:
+				v, _ := c0.Result()
+				*res = fmt.Sprint("recv", v, len(out))
+			case 1:
+				*res = fmt.Sprint("send", len(in), len(out))
+			}
+		})
+	}), "recv7 0", "send1 1")
+	// close wakes every parked receiver with (zero,false); a parked sender panics
+	wantOutcomes(t, "close-wakes-receivers", outcomes(t, 200, func(s *simrt.Sim, res *string) {
+		ch := make(chan int)
+		got := 0
+		var wg ssync.WaitGroup
+		s.Go(func() {
+			wg.Add(2)
+			for i := 0; i < 2; i++ {
+				simrt.Go(func() {
+					if v, ok := simrt.Recv2(ch); !ok && v == 0 {
+						got++
+					}
+					wg.Done()
+				})
+			}
+			simrt.Yield()
+			simrt.Close(ch)
+			wg.Wait()
+			*res = fmt.Sprint(got)
+		})
+	}), "2")
+	wantOutcomes(t, "close-with-parked-sender", outcomes(t, 200, func(s *simrt.Sim, res *string) {
+		ch := make(chan int)
+		s.Go(func() { simrt.Send(ch, 1); *res = "sent" })
+		s.Go(func() { simrt.Yield(); simrt.Close(ch) })
+	}), "panic:panic: send on closed channel")
+	// Once: a panicking function counts as the one invocation
+	wantOutcomes(t, "once-panic-counts", outcomes(t, 100, func(s *simrt.Sim, res *string) {
+		var once ssync.Once
+		calls := 0
+		s.Go(func() {
+			func() {
+				defer func() { recover() }()
+				once.Do(func() { calls++; panic("boom") })
+			}()
+			once.Do(func() { calls++ })
+			*res = fmt.Sprint(calls)
+		})
+	}), "1")
+	// a timer against a peer: either the value or the timeout, and if the timeout
+	// won the value is still in the channel
+	wantOutcomes(t, "timer-vs-peer", outcomes(t, 300, func(s *simrt.Sim, res *string) {
+		ch := make(chan int, 1)
+		s.Go(func() {
+			tm := stime.NewTimer(time.Millisecond)
+			sel := simrt.NewSelect(2, false)
+			c0 := simrt.SelRecv(sel, 0, ch)
+			simrt.SelRecv(sel, 1, tm.C)
+			switch sel.Wait() {
+			case 0:
+				v, _ := c0.Result()
+				*res = fmt.Sprint("value", v)
+			case 1:
+				*res = "timeout"
+			}
+		})
+		s.Go(func() { stime.Sleep(time.Millisecond); simrt.Send(ch, 5) })
+	}), "value5", "timeout")
+}
